@@ -19,15 +19,18 @@ Verdict(o) ==
       bad == {k \in judged : o.got[k] # Want(o.schema, k)}
       \* a disagreement is a recorded finding iff the implementation layer with the listed
       \* deviations predicts exactly what the server did
-      unexplained == {k \in bad : o.got[k] # Impl(o.schema, k, Known)}
-      drift == {k \in judged \ bad : o.got[k] # Impl(o.schema, k, Known)} IN
+      \* (a shared sum may behave as any assignment of cached unique members allows)
+      Stale(k) == "Dev_SumUniqueCachedOnSharedVariant" \in Known /\ o.schema \in SharedSums
+                  /\ (o.got[k] = 1) \in StaleOutcomes(o.schema, Insts[k], Known)
+      unexplained == {k \in bad : o.got[k] # Impl(o.schema, k, Known) /\ ~Stale(k)}
+      drift == {k \in judged \ bad : o.got[k] # Impl(o.schema, k, Known) /\ ~Stale(k)} IN
   IF unexplained # {} THEN
        LET k == CHOOSE x \in unexplained : \A y \in unexplained : x <= y IN
        (IF o.got[k] = 1 THEN "viol-accepts-invalid-" ELSE IF o.got[k] = 0 THEN "viol-refuses-valid-" ELSE "viol-neither-accepts-nor-refuses-") \o ToString(k)
   ELSE IF bad # {} THEN
        LET k == CHOOSE x \in bad : \A y \in bad : x <= y
            single == {d \in Known : o.got[k] = Impl(o.schema, k, {d})} IN
-       "known=" \o (IF single # {} THEN CHOOSE d \in single : TRUE ELSE "Dev_AbsentArrayLengthChecked") \o "-" \o ToString(k)
+       "known=" \o (IF single # {} THEN CHOOSE d \in single : TRUE ELSE IF Stale(k) THEN "Dev_SumUniqueCachedOnSharedVariant" ELSE "Dev_AbsentArrayLengthChecked") \o "-" \o ToString(k)
   ELSE IF drift # {} THEN "drift-" \o ToString(CHOOSE x \in drift : TRUE)
   ELSE "ok"
 VARIABLE l
